@@ -23,6 +23,9 @@ CHECKS['C16'] = dict(level='model_checking', design='1/C16',
 CHECKS['C03'] = dict(level='model_checking', design='1/C03',
      text='String construction, substring/substr, search, prefix/suffix, comparison, split/join, replace, in-place mutation histories (incl. self-append/self-assignment) and integer<->text conversions are executed symbolically on the real String.cpp/String.h for strings whose lengths straddle the 15/16, 20/24 and 1 KiB boundaries with fully symbolic tail bytes, against byte-array reference functions; length()==strlen after every step; all memory accesses solver-checked.',
      note='Bounds in evidence; integer round trips are decided for every value with <= 4 (thorough 5) digits and near every power of ten / type limit only. printf family = env/vlibc.c mini implementation. Trusted: z3, engine IR semantics.')
+CHECKS['C04'] = dict(level='model_checking', design='1/C04',
+     text='Histories of symbolic Var operations (assignment between any two of three Vars incl. to own element/property, element and property assignment with auto-creation, append, clone, fresh values of every kind, comparison, removal) are executed on the real Var.cpp against a reference value model with shared containers; every Var is re-read through its accessors after every step; use-after-free, double destruction and leaks are decided on every path.',
+     note='Bounds in evidence (1-2 ops, trees of depth <= 2). Doubles are z3 floating-point terms. Trusted: z3, engine IR semantics.')
 NA = {
 }
 ALL = ['C%02d' % i for i in range(1, 21)]
